@@ -487,8 +487,8 @@ func evalSent(spec world.Spec, regOK func(entity string) bool, host string, hr o
 	}
 	_, s.InQuery = q["SAMLRequest"]
 	if len(s.Ambiguous) > 0 {
+		// evaluation continues on the first value (body before query), the convention of HTML form handling
 		s.unasserted("parameters given several times with different values: %v", s.Ambiguous)
-		return s
 	}
 	msg := s.Params["SAMLRequest"]
 	if msg == "" {
